@@ -38,10 +38,10 @@ CLAIMS["C20"] = dict(
     technique="Lean 4 proof over name-lattice model + exhaustive correspondence/law check on the finite universe",
     design="§5 C20")
 CLAIMS["C01"] = dict(
-    text="Unbounded Lean theorem range_enumerates_partial on the range desugaring (end adjustment and default step regenerated from range_slice.rs on every run): for every start, end, inclusiveness and positive step CPython's range over the emitted arguments enumerates exactly what the Mamba range means; the negation for negative steps is proved on a witness and recorded as a known finding. "
-         "All other constructs (operators, if/match/while/for, implicit return, constructors and field updates, raise/handle, both annotate settings) are decided by executing the emitted module under CPython against a reference interpreter of the generated program tree.",
-    note="Proved: range desugaring only. Decided by execution oracle, not by a theorem: conversion of every other construct (the Convert model of DESIGN §4 is not built). The reference interpreter (tools/gen_prog.py Interp) is part of the trusted base.",
-    technique="Lean 4 proof (range desugaring, regenerated constants) + CPython execution oracle vs reference interpreter",
+    text="Unbounded Lean theorems on two mechanisms of the desugaring. (1) range_enumerates_partial on the range desugaring (end adjustment and default step regenerated from range_slice.rs on every run): for every start, end, inclusiveness and positive step CPython's range over the emitted arguments enumerates exactly what the Mamba range means; the negation for negative steps is proved on a witness and recorded as a known finding. (2) definition_binds_on_every_path / definition_assigns_the_tail_expression / implicit_return_on_every_path on the model of append_assign and append_ret (generate/convert/mod.rs): for EVERY statement tree — any nesting of blocks, conditionals, match arms, try/except handlers — exactly the statements in tail position change, and after the transformation no path ends in a bare expression (every path binds the defined variable, or returns, or raises); the lists of Core variants the Rust functions descend into and skip are regenerated from the source on every run and must equal the model's (tail_tables_match), and the model's prediction of how every path ends is compared with the emitted Python of generated nested block-form definitions and function bodies. return_of_definition_witness reproduces a recorded finding. "
+         "All other constructs (operators, if/match/while/for, constructors and inheritance, field updates, raise/handle, lambdas, builders, both annotate settings) are decided by executing the emitted module under CPython against a reference interpreter of the generated program tree.",
+    note="Proved: range desugaring; the tail transformations (where assignments and returns land). Decided by execution oracle, not by a theorem: conversion of every other construct. The reference interpreter (tools/gen_prog.py Interp) is part of the trusted base.",
+    technique="Lean 4 proof (range desugaring, tail transformations; regenerated constants and arm lists) + correspondence + CPython execution oracle vs reference interpreter",
     design="§5 C01")
 CLAIMS["C11"] = dict(
     text="Lean theorems on a model of how convert_def consumes the option (annotate_inert_fun, return_decision_inert, off_emits_no_annotation): for every function/definition shape the two conversions agree once annotations are erased and the implicit-return decision does not depend on the option. "
